@@ -1,5 +1,56 @@
-/- Oracle driver for C18 (stub: replaced when the property's model is built). -/
+/- Oracle for C18: runs `Golem.Model.Skiplist` on an operation history.
+
+line in : `<int|str> <nat|rev> <op> <op> …` with `<op>` = `P:<key>:<val>:<height>` | `G:<key>` | `R:<key>`
+          (`<height>` is the height the implementation was observed to draw for that Put)
+line out: per op `<ret> <printed>` joined by ` | `; `<ret>` = `_` for Put, the value for Get/Remove;
+          `<printed>` = nodes `[<key>]<finger>,<finger>,…` joined by `;` (`nil` for a nil finger, a trailing
+          run of N ≥ 1 nil fingers written `~N`) -/
+import Golem.Model.Skiplist
 import Golem.Driver.Util
 namespace Golem.Driver.C18
-def main : IO Unit := IO.eprintln "oracle: no driver for C18 yet"
+open Golem.Model.Skiplist Golem.Driver
+
+/-- `int(math.Log10(4294967296) / math.Log10(math.E))` in `New` -/
+def levels : Nat := 22
+
+def showNode {K : Type} (sh : K → String) (n : K × List (Option K)) : String :=
+  let nils := (n.2.reverse.takeWhile Option.isNone).length
+  let shown := (n.2.take (n.2.length - nils)).map (fun f => match f with | some k => sh k | none => "nil")
+  "[" ++ sh n.1 ++ "]" ++ ",".intercalate shown ++ (if nils = 0 then "" else "~" ++ toString nils)
+
+def showPrinted {K : Type} [Inhabited K] (sh : K → String) (s : State K Int) : String :=
+  ";".intercalate ((printed s).map (showNode sh))
+
+def parseOp {K : Type} (pk : String → Option K) (w : String) : Option (Op K Int) :=
+  match w.splitOn ":" with
+  | ["P", k, v, h] => do let k ← pk k; let v ← v.toInt?; let h ← h.toNat?; pure (.put k v h)
+  | ["G", k] => do let k ← pk k; pure (.get k)
+  | ["R", k] => do let k ← pk k; pure (.remove k)
+  | _ => none
+
+def runOps {K : Type} [Inhabited K] (cmp : K → K → Ordering) (sh : K → String) :
+    State K Int → List (Op K Int) → List String
+  | _, [] => []
+  | s, o :: os =>
+    let r := step cmp s o
+    let ret := match r.2 with | some v => toString v | none => "_"
+    (ret ++ " " ++ showPrinted sh r.1) :: runOps cmp sh r.1 os
+
+def history {K : Type} [Inhabited K] (cmp : K → K → Ordering) (pk : String → Option K) (sh : K → String)
+    (ws : List String) : String :=
+  match ws.mapM (parseOp pk) with
+  | some ops => " | ".intercalate (runOps cmp sh (init levels) ops)
+  | none => "bad-op"
+
+def rev {K : Type} (cmp : K → K → Ordering) : K → K → Ordering := fun a b => cmp b a
+
+def step' (line : String) : String :=
+  match words line with
+  | "int" :: "nat" :: ws => history (K := Int) compare String.toInt? toString ws
+  | "int" :: "rev" :: ws => history (K := Int) (rev compare) String.toInt? toString ws
+  | "str" :: "nat" :: ws => history (K := String) compare some id ws
+  | "str" :: "rev" :: ws => history (K := String) (rev compare) some id ws
+  | _ => "bad-op"
+
+def main : IO Unit := eachLine step'
 end Golem.Driver.C18
